@@ -214,31 +214,32 @@ func RPMFile(info Info, data []byte) (Info, error) {
 		return info, fmt.Errorf("rpm.ReadPackageLead: %w", err)
 	}
 
-	if r.RPMVersion() != "" {
-		info.Description = fmt.Sprintf("RPM (version %s)", r.RPMVersion())
+	hdr := r.Headers[1].Indexes
+	if v := rpmString(hdr, rpm.RPMTAG_RPMVERSION); v != "" {
+		info.Description = fmt.Sprintf("RPM (version %s)", v)
 	}
 
-	info.Attributes = append(info.Attributes, Attribute{"Name", r.Name()})
-	info.Attributes = append(info.Attributes, Attribute{"Version", r.Version()})
-	info.Attributes = append(info.Attributes, Attribute{"Release", r.Release()})
-	info.Attributes = append(info.Attributes, Attribute{"Architecture", r.Architecture()})
+	info.Attributes = append(info.Attributes, Attribute{"Name", rpmString(hdr, rpm.RPMTAG_NAME)})
+	info.Attributes = append(info.Attributes, Attribute{"Version", rpmString(hdr, rpm.RPMTAG_VERSION)})
+	info.Attributes = append(info.Attributes, Attribute{"Release", rpmString(hdr, rpm.RPMTAG_RELEASE)})
+	info.Attributes = append(info.Attributes, Attribute{"Architecture", rpmString(hdr, rpm.RPMTAG_ARCH)})
 
 	if len(r.Headers) > 0 {
 		sigIdx := r.Headers[0].Indexes
 		if len(sigIdx) > 0 && sigIdx[0].Tag == rpm.RPMTAG_HEADERSIGNATURES {
-			if md5Digest := sigIdx.BytesByTag(rpm.RPMSIGTAG_MD5); len(md5Digest) > 0 {
+			if md5Digest := rpmBytes(sigIdx, rpm.RPMSIGTAG_MD5); len(md5Digest) > 0 {
 				info.Attributes = append(info.Attributes, Attribute{names.MD5, hex.EncodeToString(md5Digest)})
 			}
-			if sha1Digest := sigIdx.StringByTag(rpm.RPMSIGTAG_SHA1); len(sha1Digest) > 0 {
+			if sha1Digest := rpmString(sigIdx, rpm.RPMSIGTAG_SHA1); len(sha1Digest) > 0 {
 				info.Attributes = append(info.Attributes, Attribute{names.SHA1, sha1Digest})
 			}
-			if sha256Digest := sigIdx.StringByTag(273); len(sha256Digest) > 0 {
+			if sha256Digest := rpmString(sigIdx, 273); len(sha256Digest) > 0 {
 				info.Attributes = append(info.Attributes, Attribute{names.SHA256, sha256Digest})
 			}
 
 			foundSig := false
 			for _, t := range []int{rpm.RPMSIGTAG_DSA, rpm.RPMSIGTAG_RSA} {
-				if sig := sigIdx.BytesByTag(t); len(sig) > 0 {
+				if sig := rpmBytes(sigIdx, t); len(sig) > 0 {
 					foundSig = true
 					info.Children = append(info.Children, Info{
 						Description: "Signature",
@@ -248,7 +249,7 @@ func RPMFile(info Info, data []byte) (Info, error) {
 			}
 
 			for _, t := range []int{rpm.RPMSIGTAG_GPG, rpm.RPMSIGTAG_PGP} {
-				if sig := sigIdx.BytesByTag(t); len(sig) > 0 {
+				if sig := rpmBytes(sigIdx, t); len(sig) > 0 {
 					foundSig = true
 					info.Children = append(info.Children, Info{
 						Description: "Legacy signature (RPM v3)",
